@@ -53,7 +53,7 @@ def _shapes(tier):
                 for opening in (0, 1):
                     for pickup in (0, 1):
                         for final in (0, 1):
-                            for bl in (1, 2, 3, 4, 12, 16, 32):       # 16 / 32: invisible barlines (=2-) inside the score
+                            for bl in (1, 2, 3, 4, 12, 16, 32, 64):       # 16 / 32: invisible barlines (=2-) inside the score; 64: ties across the barlines
                                 out.append((M, tuple(lens), opening, pickup, final, 1 + (bl in (2, 4)), 0, 0, bl))
         return out
     for M in range(1, maxM + 1):
@@ -68,7 +68,7 @@ def _shapes(tier):
                                 for fk in (1, 2, 3):
                                     out.append((M, tuple(lens), opening, pickup, final, ks, ts, fk, 0))
                             if M <= 3 and (ks, ts) == (1, 0) and sum(lens) <= 3:
-                                for bl in (1, 2, 3, 4, 12, 16, 32):
+                                for bl in (1, 2, 3, 4, 12, 16, 32, 64):
                                     out.append((M, tuple(lens), opening, pickup, final, ks, ts, 0, bl))
     return out
 
